@@ -87,8 +87,7 @@ See also: guarded, rational
             raise UsageError('Fixed: precision=%s; must be an int >= 0' % precision)
 
         #  set display precision
-        if options.getopt('display') is None:   # don't override default set by rule
-            options.setopt('display', default=cls.precision)
+        options.setopt('display', default=cls.precision)   # declare it (keeps a default set by the rule or a value given by the user)
         display = options.getopt('display')
         try:
             display = int(display)
